@@ -24,7 +24,7 @@ CLAIMED = {
     ),
     "C16": (
         "bounded symbolic execution of the real check_ref_format (ksym) against a reference model of git check-ref-format, one solver query per path",
-        "check_ref_format agrees with git check-ref-format on every byte string of length 1..6 (7-8 thorough) and on every name built around '.lock', '@{', '..', '//' with up to 4 free bytes (names up to 9 bytes). The reference model is validated against the installed git binary (tools/validate_git_models.py). The backend-contract half of C16 (one step from arbitrary states vs a map model) is not covered by this check yet.",
+        "check_ref_format agrees with git check-ref-format on every byte string of length 1..6 (7-8 thorough) and on every name built around '.lock', '@{', '..', '//' with up to 4 free bytes (names up to 9 bytes). The reference model is validated against the installed git binary (tools/validate_git_models.py). Backend contract: one operation of every kind (conditional/unconditional set, create, delete, symbolic ref, pack_refs) with every argument combination, from every state over {HEAD, refs/heads/a, refs/heads/a/b, refs/tags/t} in which refs are absent/loose/packed/loose-over-packed/symbolic, on the real DiskRefsContainer in a real directory (and DictRefsContainer on direct refs), leaves exactly the result, refs, symrefs the map model predicts, also for a re-opened container, and no lock file; the post-state is again a model state, so by induction sequences of any length over this state space are covered. Three genuine defects found by this check were repaired (fix: d4f5845, af3e34d, a38d673). Reftable/namespaced backends and peeled tags are not covered.",
         "Trusted: z3, ksym, the reference model of git's rules (validated against git 2.39.5 on 3000 random names).",
     ),
     "C19": (
